@@ -227,3 +227,7 @@ def run(tier, V):
                    'a/i/r/pu/k/= are generated with a single address; marks on lines that were themselves changed are not predicted (script cut there)',
                    'error message wording is not compared; rejection is judged by effect']
     return cov, assumptions
+
+
+def REPLAY(w):
+    return run_script((build('asan'), w['index']))[0]
